@@ -424,6 +424,12 @@ func (v Violation) Key() string {
 
 func (s *Sim) Violate(class string, attrs map[string]string, format string, args ...any) {
 	v := Violation{Class: class, Attrs: attrs, Detail: fmt.Sprintf(format, args...), AtStep: s.Steps, AtVirt: s.Now().String()}
+	if s.Aborted != "" {
+		// the harness gave up on this run (step cap): whatever is observed from here on is
+		// a consequence of that, not of the code under test
+		s.Log.Addf("suppressed after abort (%s): %s: %s", s.Aborted, v.Key(), v.Detail)
+		return
+	}
 	s.mu.Lock()
 	s.Violations = append(s.Violations, v)
 	s.mu.Unlock()
